@@ -111,7 +111,7 @@ def one_op(rng, root):
         ("setitem_index_new_key", lambda: node.__setitem__(rnd_index(rng, node), {("z", "zz"): rnd_tensor(rng, node)})),
         ("update_dict", lambda: node.update({strk: rnd_tensor(rng, node), ("q", "r"): rnd_tensor(rng, node, ok=0.5)})),
         ("update_td", lambda: node.update(O.build(O.gen_tree(rng, O.mutate_shape(rng, list(node.batch_size))[:3] if rng.random() < 0.4 else list(node.batch_size), None, 1)))),
-        ("update_bs", lambda: node.update(O.build(O.gen_tree(rng, O.gen_bs(rng), None, rng.randint(1, 2))), update_batch_size=True)),
+        ("update_bs", lambda: node.update(O.build(O.gen_tree(rng, O.gen_bs(rng), None, rng.randint(1, 2))), update_batch_size=True) if not h else None),   # through a nested handle it resizes the child: the documented exclusion
         ("update_", lambda: node.update_({k: torch.ones_like(v) for k, v in node.items() if isinstance(v, torch.Tensor)})),
         ("update_at_", lambda: node.update_at_({k: torch.ones_like(v[rnd_index(rng, node)]) for k, v in node.items() if isinstance(v, torch.Tensor)}, rnd_index(rng, node))),
         ("del", lambda: node.del_(key)),
